@@ -1006,8 +1006,8 @@ class SupportGenerator(CodeGenerator):
     ) -> None:
         for line_pp in line_pps:
             line_pp.reset()
-        with open(str(target), "w", encoding="utf-8") as target_file:
-            with open(str(resource), "r", encoding="utf-8") as resource_file:
+        with open(str(target), "w", encoding="utf-8", newline="") as target_file:
+            with open(str(resource), "r", encoding="utf-8", newline="") as resource_file:
                 for resource_line in resource_file:
                     if len(resource_line) > 1 and resource_line[-2] == "\r":
                         resource_line_tuple = (resource_line[0:-2], "\r\n")
